@@ -32,7 +32,7 @@ DEFAULT_PROFILE = {
     "p_http": 0.9, "p_signature": 0.7, "p_routing": 0.25, "p_keyword_rpc": 0.08,
     "p_service_config": 0.8, "p_yaml": 0.3, "p_reserved_field": 0.08, "p_two_services": 0.25,
     "p_foreign_request": 0.1, "p_shuffle_numbers": 0.2, "p_additional_binding": 0.25,
-    "p_auto_populate": 0.0, "p_google_api_ns": 0.0, "sig_variants": False, "p_multi_var_path": 0.0, "mixin_variants": False, "p_add_iam_methods": 0.0, "p_equal_sort_keys": 0.0, "p_reserved_path_var": 0.0, "p_local_empty": 0.0, "p_same_method_two_services": 0.0, "p_required_enum": 0.0, "p_custom_http_pattern": 0.0, "common_file_names": ["resources"],
+    "p_auto_populate": 0.0, "p_google_api_ns": 0.0, "sig_variants": False, "p_multi_var_path": 0.0, "mixin_variants": False, "p_add_iam_methods": 0.0, "p_equal_sort_keys": 0.0, "p_reserved_path_var": 0.0, "p_local_empty": 0.0, "p_same_method_two_services": 0.0, "p_required_enum": 0.0, "p_custom_http_pattern": 0.0, "p_real_api": 0.04, "common_file_names": ["resources"],
     "transports": ["grpc", "grpc+rest", "grpc+rest", "rest"],
     "p_numeric_enums": 0.3,
     "paged_variants": False,
@@ -115,9 +115,31 @@ def _number_seq(cx, n, start=1):
     return nums
 
 
+def real_api(cx):
+    """A real googleapis description (google.cloud.speech.v1, from the repository's test resources) with
+    seeded options / service config / service YAML, so that the same worlds also run on an API nobody here wrote."""
+    from . import fromdesc
+    rng, p = cx.rng, cx.p
+    spec = fromdesc.speech_spec()
+    spec["real_api"] = "google.cloud.speech.v1"
+    spec["options"]["transport"] = rng.choice(p["transports"])
+    if "rest" in spec["options"]["transport"] and cx.chance("p_numeric_enums"):
+        spec["options"]["rest-numeric-enums"] = True
+    if cx.chance("p_service_config"):
+        spec["service_config"] = gen_service_config(rng, spec)
+    if "rest" in spec["options"]["transport"] or cx.chance("p_yaml"):
+        spec["service_yaml"] = {"type": "google.api.Service", "config_version": 3, "name": "speech.googleapis.com",
+                                "apis": [{"name": "google.longrunning.Operations"}],
+                                "http": {"rules": [{"selector": "google.longrunning.Operations.GetOperation", "get": "/v1/operations/{name=**}"},
+                                                   {"selector": "google.longrunning.Operations.ListOperations", "get": "/v1/operations"}]}}
+    return spec
+
+
 def gen_api(rng, prof=None):
     cx = _Ctx(rng, prof or DEFAULT_PROFILE)
     p = cx.p
+    if cx.chance("p_real_api") and not p.get("p_auto_populate") and not p.get("mixin_variants"):
+        return real_api(cx)
     ns = rng.choice([["acme"], ["acme", "cloud"], ["example"]])
     if cx.chance("p_google_api_ns"):
         ns = ["google", "api"]      # ancestor package google.api defines messages (HttpRule, ...) present in every request  # no-namespace packages excluded: setup.py.j2 needs one (C01/C11, not claimed)
